@@ -42,11 +42,13 @@ REACH = ["shared_relay_pairs", "forged_create_live_exit_before_expiry", "forged_
          "forged_create_live_relay", "forged_destroy_non_neighbour", "forged_destroy_spoofed_source", "replayed_destroy", "cross_circuit_body",
          "garbage_on_live_id", "unknown_id_cell", "legit_destroy_removed_only_own", "data_delivered",
          "created_relabelled_with_live_exit_id", "signed_message_replayed_from_adversary_address", "forged_created_badauth", "forged_created_shortkey",
-         "plaintext_flagged_data_on_live_exit_id", "nested_data_message_from_outside", "data_cell_into_half_built_circuit", "custom_join_policy", "keyless_relay_early_flood", "keyless_traffic_flood"]
+         "plaintext_flagged_data_on_live_exit_id", "nested_data_message_from_outside", "data_cell_into_half_built_circuit", "custom_join_policy", "keyless_relay_early_flood", "keyless_traffic_flood",
+         "forged_destroy_for_surviving_half_of_relay_pair", "first_data_cell_replayed_from_adversary_address"]
 
 ATTACKS = ["unknown_id", "garbage_live", "cross_body", "create_live", "create_live", "destroy_own_sig", "destroy_replay",
            "destroy_spoofed_src", "created_cid_swap", "signed_replay_adv", "forged_created_badauth", "forged_created_shortkey",
-           "plain_data_live", "nested_data_from_outside", "data_into_half_built", "relay_early_flood", "traffic_flood"]
+           "plain_data_live", "nested_data_from_outside", "data_into_half_built", "relay_early_flood", "traffic_flood",
+           "destroy_half_pair", "first_data_replay"]
 
 
 def cases(tier: str, base_seed: int):  # noqa: ANN201
@@ -203,6 +205,7 @@ def execute(case: dict) -> dict:  # noqa: C901, PLR0915
         # only entries of established circuits are expected to be stable (a half-built circuit may give up by time-out)
         stable: set = set()
         owner_of: dict = {}       # stable key -> index of the circuit it belongs to
+        freed: set = set()        # ids of relay directions that "timed out on their own" (destroy_half_pair): free again
         diverted: set = set()     # circuits whose forward path was diverted by a replayed signed message (not judged, see below)
         for ci in circuits:
             if ci["circ"].state != "READY":
@@ -331,6 +334,86 @@ def execute(case: dict) -> dict:  # noqa: C901, PLR0915
                                   f"none of the first {len(mine)} datagrams of a fresh 2-hop circuit left its exit after 14 undecryptable "
                                   f"relay_early cells naming the circuit were sent to its first hop by a third party")
                     o.call(o.ov.remove_circuit, fresh.circuit_id, "c05 fresh done", destroy=1)
+                    fci["removed"] = True
+            elif kind == "destroy_half_pair":
+                # one direction of a relay pair has expired on its own (the sweep times the two directions separately: a cell
+                # refreshes only the entry it is looked up under), then a third party sends a destroy, signed with its own key, for
+                # the id of the surviving direction
+                rels = [k3 for k3 in live if k3[1] == "relay_from_to"]
+                if rels:
+                    node_name, tname, cid = rels[int(pick * 983) % len(rels)]
+                    target = next(x for x in tw.nodes if x.name == node_name)
+                    rel = target.ov.relay_from_to.get(cid)
+                    if rel is not None and rel.circuit_id in target.ov.relay_from_to and owner_of.get((node_name, tname, cid)) not in diverted:
+                        target.ov.relay_from_to.pop(rel.circuit_id)
+                        freed.add(rel.circuit_id)
+                        live = [k3 for k3 in live if k3 != (node_name, "relay_from_to", rel.circuit_id)]
+                        diverted.add(owner_of.get((node_name, tname, cid)))      # the circuit is half dead from here on: not judged
+                        world.probe("forged_destroy_for_surviving_half_of_relay_pair")
+                        c.nontrivial(f"destroy_half_pair/{after_expiry}")
+                        # (the sweep may remove the surviving direction for inactivity at any moment - nothing refreshes it any more -
+                        #  so the removal REQUEST made by the destroy handler is what is observed, not the table)
+                        calls: list = []
+                        orig_rr = target.ov.remove_relay
+
+                        def spy_rr(cid_, info="", *a, _o=orig_rr, _calls=calls, **k):  # noqa: ANN001, ANN002, ANN003, ANN202
+                            _calls.append((cid_, str(info)))
+                            return _o(cid_, info, *a, **k)
+                        target.ov.remove_relay = spy_rr
+                        adv.call(adv.ov.send_destroy, target.address, cid, 1 + int(pick * 3))
+                        await asyncio.sleep(0.5)
+                        del target.ov.remove_relay
+                        freed.add(cid)
+                        if any(cid_ == cid and info.startswith("got destroy") for cid_, info in calls):
+                            c.violate("tables_unchanged", "destroy_of_third_party_accepted_for_half_expired_relay_pair",
+                                      f"{node_name} holds only one direction of a relay pair (the other timed out on its own); a destroy for "
+                                      f"id {cid} signed by a node that is not on the circuit made it remove the entry and pass the destroy on")
+            elif kind == "first_data_replay":
+                # a fresh circuit; an on-path observer copies the first data cell on the last link and sends the copy to the exit from
+                # its own address so that it arrives first (cells carry no replay protection: the copy decrypts)
+                o = tw.nodes[int(pick * 7) % n_orig]
+                fresh = await tw.build_circuit(o, 1 + int(pick * 3) % 2, tries=1)
+                if fresh is not None and fresh.state == "READY":
+                    fidx = 200 + len(circuits)
+                    wsrv = tw.add_outside(f"wr{fidx}", f"9.9.7.{fidx % 250}", 7900 + fidx % 90)
+                    fpath = tw.path_of(o, fresh)
+                    fci = {"idx": fidx, "o": o, "w": wsrv, "circ": fresh, "sent": set(), "replies": set(), "path": fpath}
+                    circuits.append(fci)
+                    xnode = fpath[-1] if fpath and fpath[-1] is not None else None
+                    xcid = fresh.circuit_id
+                    for hop_node in fpath[:-1]:
+                        r2 = hop_node.ov.relay_from_to.get(xcid) if hop_node is not None else None
+                        xcid = r2.circuit_id if r2 is not None else xcid
+                    es = xnode.ov.exit_sockets.get(xcid) if xnode is not None else None
+                    if es is not None and not es.enabled:
+                        genuine_prev = tuple(es.hop.address)
+                        shot = {"done": False}
+
+                        def copy_first(pkt, fate, _x=xnode, _cid=xcid, _shot=shot) -> None:  # noqa: ANN001
+                            parts = cell_parts(pkt.data)
+                            if _shot["done"] or pkt.injected or parts is None or parts[0] != _cid or tuple(pkt.dst) != tuple(_x.address):
+                                return
+                            _shot["done"] = True
+                            net.inject(adv.address, _x.address, pkt.data, delay=0.00001, label="replayed_first_data")
+                        net.on_send.append(copy_first)
+                        for k in range(3):
+                            pl = b"d" + b"FIRST%02d" % k + rng.randbytes(3).hex().encode() + b"e"
+                            fci["sent"].add(pl)
+                            fci["replies"].add(wsrv.reply(pl, None))
+                            o.call(o.ov.send_data, fresh.hop.address, fresh.circuit_id, UDPv4Address(*wsrv.address), ("0.0.0.0", 0), pl)
+                            await asyncio.sleep(0.3)
+                        net.on_send.remove(copy_first)
+                        await asyncio.sleep(1.0)
+                        if shot["done"]:
+                            world.probe("first_data_cell_replayed_from_adversary_address")
+                            c.nontrivial(f"first_data_replay/{len(fpath)}")
+                            es2 = xnode.ov.exit_sockets.get(xcid)
+                            if es2 is not None and tuple(es2.hop.address) != genuine_prev:
+                                c.violate("tables_unchanged", "exit_entry_readdressed:first_data_replay",
+                                          f"{xnode.name}.exit_sockets[{xcid}]: the previous hop changed from {genuine_prev} to "
+                                          f"{tuple(es2.hop.address)}{' (the adversary)' if tuple(es2.hop.address) == tuple(adv.address) else ''} "
+                                          f"after a copy of the circuit's first data cell arrived from the adversary's address")
+                    o.call(o.ov.remove_circuit, fresh.circuit_id, "c05 replay done", destroy=1)
                     fci["removed"] = True
             elif kind == "plain_data_live":
                 # a well-formed DataPayload that simply claims to be plaintext, under the id of an established exit entry, towards an
@@ -498,9 +581,11 @@ def execute(case: dict) -> dict:  # noqa: C901, PLR0915
                 c.violate("tables_unchanged", f"entry_readdressed:{tname}",
                           f"{node}.{tname}[{cid}]: the address of its neighbour on the circuit changed from {addr0} to {now[4]}"
                           f"{' (the adversary)' if now[4] == tuple(adv.address) else ''}; attacks={[a['kind'] for a in case['attacks']]}")
+        # ids of circuits that are no longer judged (diverted / half dead: they may be given up by their owner at any moment)
+        freed |= {k3[2] for k3, idx3 in owner_of.items() if idx3 in diverted}
         for key in after:
             # (an id that was freed by the legitimate teardown above is free: a create naming it afterwards is a new circuit)
-            if key not in before and key[2] in {k[2] for k in before} and key[2] not in legit_gone:
+            if key not in before and key[2] in {k[2] for k in before} and key[2] not in legit_gone and key[2] not in freed:
                 c.violate("tables_unchanged", f"entry_added_for_live_id:{key[1]}", f"{key} appeared during the attack window")
         # ---------------------------------------------------------------- legitimate teardown of one circuit
         alive = [ci for ci in circuits if not ci.get("removed") and ci["circ"].state == "READY" and ci["idx"] not in diverted
